@@ -118,6 +118,22 @@ def mutations(text: str, version: str, rng: random.Random, per_kind: int = 3):
         cut = '\n'.join(lines[:k]) + '\n' + lines[k][:len(lines[k]) // 2]
         out.append(({'kind': 'unbalance', 'elem': lex[0][2], 'attr': 'start-tag'}, cut))
     emit('unbalance', 'LexicalResource', 'truncated', lines[:max(3, len(lines) * 2 // 3)])
+    # comments change nothing: a one-line comment, one over several lines, and commented-out
+    # Lexicon / Extends start tags (what an earlier release leaves behind)
+    if lex:
+        k = lex[0][0]
+        ind = '  '
+        for variant, text in (
+                ('line', [ind + '<!-- a comment -->']),
+                ('block', [ind + '<!-- a comment', ind + '     over three lines', ind + '-->']),
+                ('old-lexicon', [ind + '<!--', ind + '<Lexicon id="ghost" version="0" label="Ghost" language="xx"',
+                                 ind + '         email="g@x" license="none">', ind + '</Lexicon>', ind + '-->']),
+                ('old-extends', [ind + '<!-- formerly:', ind + '  <Extends id="ghostbase" version="9"/>', ind + '-->'])):
+            new = list(lines)
+            # before the first lexicon, or just inside it (after its start tag)
+            at = k if variant in ('line', 'old-lexicon') else k + 1
+            new[at:at] = text
+            emit('comment', 'Lexicon', variant, new)
     # header
     emit('no_xmldecl', '~', '~', lines[1:])
     emit('no_doctype', '~', '~', [lines[0]] + lines[2:])
